@@ -137,12 +137,20 @@ func directedP() []pcase {
 			{Op: "add", Id: "a", msg: dd(1)}, {Op: "update", Id: "a", msg: dd(1.5)}, {Op: "update", Id: "a", msg: dd(2)}}},
 		{Kind: "cpull", Spec: &margin, Type: at, Ops: []cop{
 			{Op: "add", Id: "a", msg: dd(1)}, {Op: "update", Id: "a", msg: dd(1.5)}, {Op: "update", Id: "a", msg: dd(0.75)}}},
+		// include boundary crossed by less than the tolerance: the ADD / REMOVE must still be delivered
+		{Kind: "cpull", Spec: &margin, Type: at, Inc: &incSpec{Field: "default_double", Op: "gt", Thr: 21}, Ops: []cop{
+			{Op: "add", Id: "a", msg: dd(20.875)}, {Op: "update", Id: "a", msg: dd(21.125)}, {Op: "update", Id: "a", msg: dd(21.25)},
+			{Op: "update", Id: "a", msg: dd(20.875)}, {Op: "add", Id: "b", msg: dd(30)}, {Op: "delete", Id: "b"}, {Op: "delete", Id: "a"}}},
+		{Kind: "cpull", Spec: &exact, Type: at, Mask: []string{"default_int32"}, Inc: &incSpec{Field: "default_double", Op: "ge", Thr: 21}, Ops: []cop{
+			{Op: "add", Id: "a", msg: dd(20)}, {Op: "update", Id: "a", msg: dd(21)}, {Op: "update", Id: "a", msg: dd(22)}, {Op: "update", Id: "a", msg: dd(20)}}},
+		{Kind: "cpull", Spec: nil, Type: at, Inc: &incSpec{Field: "default_double", Op: "lt", Thr: 21}, Ops: []cop{
+			{Op: "add", Id: "a", msg: dd(22)}, {Op: "update", Id: "a", msg: dd(23)}, {Op: "update", Id: "a", msg: dd(20)}, {Op: "update", Id: "a", msg: dd(19)}}},
 	}
 }
 
 func runDirected(f lib.Flags, res *lib.Result, drv *lib.Driver, ms *monitors) {
 	tie := res.Tie("directed-corner-cases", "K2",
-		"fixed list: one small case per special-value rule and per repaired/known defect (change_time presence and value, NaN, ±0, presence vs default, empty message/bytes, map keys, typed nil, unknown-field order, non-finite floats under FloatValueApprox, tolerance boundaries, overflowing durations, saturating Time.Sub, DurationValueWithinP, read-mask seed, tolerance drift in Collection.Pull)")
+		"fixed list: one small case per special-value rule and per repaired/known defect (change_time presence and value, NaN, ±0, presence vs default, empty message/bytes, map keys, typed nil, unknown-field order, non-finite floats under FloatValueApprox, tolerance boundaries, overflowing durations, saturating Time.Sub, DurationValueWithinP, read-mask seed, tolerance drift in Collection.Pull, include boundary crossed within the tolerance)")
 	tie.Exhaustive = true
 	for _, c := range directedE() {
 		ans, err := drv.Batch(c.lines())
